@@ -387,12 +387,196 @@ pub fn scenario(r: &mut Report, c: &Case) {
     }
 }
 
+/// Transaction-id hygiene across lookups. One real node looks up several info-hashes, one after the other
+/// and two at a time, among scripted endpoints that hold a distinct peer per (info-hash, endpoint). Every
+/// genuine reply is sent again from the exact address after 50 ms .. 20 s (late duplicates reach the node while
+/// later lookups to the same endpoints are outstanding), and the referral lists name unsendable contacts
+/// (port 0, the broadcast address) next to the real ones. A lookup of h may only yield peers stored under h,
+/// each endpoint's list at most once, and it must yield the genuine ones.
+pub fn hygiene(r: &mut Report, seed: u64) {
+    r.eval();
+    let mut rng = Rng::new(seed);
+    let w = World::with_cfg(seed, NetCfg { lat_min: MS, lat_max: 40 * MS, random_ties: true }, TraceLevel::Off);
+    let n = 2 + rng.usize(12);
+    let hostile = rng.usize(3); // 0 none, 1 port-0 contact, 2 port-0 and broadcast contacts
+    let case = json!({"class":"tid-hygiene","seed":seed.to_string(),"endpoints":n,"hostile_referrals":hostile});
+    let ends: Vec<([u8; 20], SocketAddrV4)> = (0..n).map(|i| (rng.array(), SocketAddrV4::new(Ipv4Addr::new(10, 9, 0, 1 + i as u8), 6881))).collect();
+    let socks: Vec<SockId> = ends.iter().map(|e| w.raw(e.1)).collect();
+    let hashes: Vec<[u8; 20]> = (0..6).map(|k| { let mut h: [u8; 20] = rng.array(); h[0] = k as u8; h }).collect();
+    let peer = |k: usize, i: usize| SocketAddrV4::new(Ipv4Addr::new(99, k as u8, i as u8, 1), 7000 + k as u16);
+    // sparse referrals (a chain plus a few random edges) make lookups take several rounds; slow endpoints
+    // keep a lookup alive while other lookups send their next requests
+    let knows: Vec<Vec<usize>> = (0..n).map(|i| { let mut v = vec![(i + 1) % n]; for _ in 0..rng.usize(4) { v.push(rng.usize(n)); } v }).collect();
+    // get_peers requests received per (info-hash index, endpoint): a node that sits in the routing table and in
+    // the bootstrap list is asked twice in the first tick, and answers twice
+    let asked: Arc<Mutex<std::collections::HashMap<(usize, usize), usize>>> = Arc::new(Mutex::new(Default::default()));
+    let silent: Vec<bool> = (0..n).map(|i| i >= 2 && rng.chance(1, 5)).collect();
+    let slow: Vec<u64> = (0..n).map(|_| *rng.pick(&[0u64, 0, 100 * MS, 200 * MS, 300 * MS])).collect();
+    {
+        let (ends2, socks2, hashes2, knows2, slow2, asked2) = (ends.clone(), socks.clone(), hashes.clone(), knows.clone(), slow.clone(), asked.clone());
+        let silent2 = silent.clone();
+        let mut rr = Rng::new(mix(seed, 0xd0b1e));
+        w.set_responder(Some(Box::new(move |w, sock, d| {
+            let Some(i) = socks2.iter().position(|s| *s == sock) else { return false };
+            let Some(q) = Krpc::parse(&d.bytes) else { return true };
+            if q.y != b'q' {
+                return true;
+            }
+            if silent2[i] && q.is_query("get_peers") {
+                return true;
+            }
+            let mut rd = vec![("id", B::bytes(&ends2[i].0))];
+            if let Some(t) = q.target() {
+                let mut list: Vec<([u8; 20], SocketAddrV4)> = knows2[i].iter().map(|j| ends2[*j]).collect();
+                // unsendable contacts anywhere in the visiting order: next to the target, far from it, random
+                let place = |rr: &mut Rng, salt: u8| -> [u8; 20] {
+                    let mut id = t;
+                    match rr.usize(3) {
+                        0 => id[19] ^= 1 + salt,
+                        1 => {
+                            for b in id.iter_mut() {
+                                *b = !*b;
+                            }
+                            id[19] ^= salt;
+                        }
+                        _ => id = rr.array(),
+                    }
+                    id
+                };
+                if hostile >= 1 {
+                    let id = place(&mut rr, i as u8);
+                    list.insert(rr.usize(list.len() + 1), (id, SocketAddrV4::new(Ipv4Addr::new(61, 2, 3, 4 + i as u8), 0)));
+                }
+                if hostile >= 2 {
+                    let id = place(&mut rr, 0x40 + i as u8);
+                    list.insert(rr.usize(list.len() + 1), (id, SocketAddrV4::new(Ipv4Addr::BROADCAST, 6881)));
+                }
+                rd.push(("nodes", B::Bytes(nodes_bytes(&list))));
+                if q.is_query("get_peers") {
+                    rd.push(("token", B::bytes(b"tokn")));
+                    if let Some(k) = hashes2.iter().position(|h| *h == t) {
+                        *asked2.lock().unwrap_or_else(|e| e.into_inner()).entry((k, i)).or_insert(0) += 1;
+                        rd.push(("values", B::List(vec![B::Bytes(addr_bytes(&SocketAddrV4::new(Ipv4Addr::new(99, k as u8, i as u8, 1), 7000 + k as u16)))])));
+                    }
+                }
+            }
+            let bytes = response(&q.t, B::dict(rd), Some(&d.from), Some(&VERSION_RS6)).encode();
+            w.raw_send_delayed(sock, &bytes, d.from, slow2[i]);
+            // the same datagram again, later, from the same address
+            for _ in 0..1 + rr.usize(2) {
+                let delay = *rr.pick(&[50 * MS, 400 * MS, 2 * SEC, 6 * SEC, 20 * SEC]) + rr.below(300) * MS;
+                w.raw_send_delayed(sock, &bytes, d.from, delay);
+            }
+            true
+        })));
+    }
+    let boots: Vec<SocketAddrV4> = ends.iter().take(2).map(|e| e.1).collect();
+    let x = w.spawn(NodeSpec::client(Ipv4Addr::new(10, 9, 9, 9), &boots)).expect("x");
+    w.block_on(x.adht.bootstrapped(), 120 * SEC);
+    // lookups start staggered (0 .. 10 s apart), so that a lookup's first request leaves while earlier
+    // lookups are still waiting for slow or silent endpoints
+    let mut starts: Vec<u64> = vec![];
+    let mut t = w.now();
+    for _ in 0..hashes.len() {
+        starts.push(t);
+        t += *rng.pick(&[0u64, 30 * MS, 150 * MS, 400 * MS, 900 * MS, 3 * SEC, 10 * SEC]);
+    }
+    type Fut = std::pin::Pin<Box<dyn std::future::Future<Output = Vec<Vec<SocketAddrV4>>>>>;
+    let mut tasks: Vec<Option<Task<Vec<Vec<SocketAddrV4>>>>> = (0..hashes.len()).map(|_| None).collect();
+    let end_all = t + 120 * SEC;
+    if std::env::var("MLV_DEBUG").is_ok() {
+        w.set_trace(TraceLevel::Full);
+        w.clear_trace();
+    }
+    loop {
+        let now = w.now();
+        for j in 0..hashes.len() {
+            if tasks[j].is_none() && now >= starts[j] {
+                let a = x.adht.clone();
+                let h = Id::from(hashes[j]);
+                let f: Fut = Box::pin(async move { a.get_peers(h).collect::<Vec<_>>().await });
+                tasks[j] = Some(Task::new(now, f));
+            }
+        }
+        let mut all = true;
+        for tk in tasks.iter_mut() {
+            match tk {
+                Some(tk) => {
+                    if !tk.poll(now) {
+                        all = false;
+                    }
+                }
+                None => all = false,
+            }
+        }
+        if all || now >= end_all {
+            break;
+        }
+        let next_start = (0..hashes.len()).filter(|j| tasks[*j].is_none()).map(|j| starts[j]).min().unwrap_or(end_all);
+        match w.step_until(next_start.max(now + 1).min(end_all)) {
+            Step::Stuck => break,
+            Step::Idle => {
+                w.run_to(next_start.min(end_all));
+            }
+            _ => {}
+        }
+    }
+    if std::env::var("MLV_DEBUG").is_ok() {
+        let (sends, delivers) = sends_and_delivers(&w.trace_from(0));
+        for m in sends.iter().filter(|m| m.from == x.addr) {
+            eprintln!("  send t={}ms -> {} q={:?} tid={:?} ih={:?}", m.t / 1_000_000, m.to, m.k.q, m.k.t, m.k.target().map(|t| t[0]));
+        }
+        for m in delivers.iter().filter(|m| m.to == x.addr) {
+            eprintln!("  dlvr t={}ms {} tid={:?} values={}", m.t / 1_000_000, m.from, m.k.t, m.k.res("values").is_some());
+        }
+    }
+    let mut lookups = 0u64;
+    let silent_all = (0..n).all(|i| silent[i]);
+    for (j, tk) in tasks.into_iter().enumerate() {
+        lookups += 1;
+        let res = tk.and_then(|t| t.result);
+        let Some(lists) = res else {
+            r.violation("hygiene/lookup-did-not-complete", "get_peers did not complete within 120 virtual seconds", case.clone(), json!({"lookup": j}));
+            continue;
+        };
+        let own: HashSet<SocketAddrV4> = (0..n).map(|i| peer(j, i)).collect();
+        let flat: Vec<SocketAddrV4> = lists.iter().flatten().copied().collect();
+        let foreign: Vec<String> = flat.iter().filter(|p| !own.contains(p)).map(|p| p.to_string()).collect();
+        if !foreign.is_empty() {
+            r.violation("hygiene/peers-of-another-lookup", "a lookup yielded peers that were sent in reply to another lookup's request", case.clone(), json!({"lookup": j, "foreign": foreign}));
+        }
+        let asked_now = asked.lock().unwrap_or_else(|e| e.into_inner()).clone();
+        let too_often = (0..n).any(|i| flat.iter().filter(|p| **p == peer(j, i)).count() > asked_now.get(&(j, i)).copied().unwrap_or(0));
+        if too_often {
+            r.violation("hygiene/reply-consumed-twice", "an endpoint's peers were delivered to the caller more often than it was asked", case.clone(), json!({"lookup": j, "lists": lists.len()}));
+        }
+        // every endpoint that was asked and answers in time must be heard
+        let missing: Vec<usize> = (0..n).filter(|i| !silent[*i] && asked_now.get(&(j, *i)).copied().unwrap_or(0) > 0 && !flat.contains(&peer(j, *i))).collect();
+        if !missing.is_empty() && !silent_all {
+            r.violation("hygiene/genuine-replies-lost", "an endpoint answered a lookup's request in time, but its peers were not yielded", case.clone(), json!({"lookup": j, "endpoints": missing}));
+        }
+    }
+    r.add("hygiene_lookups", lookups);
+    r.add("hygiene_unsendable_requests", w.send_errors());
+    r.nontrivial(mix(seed, w.order_hash()));
+    drop(x);
+    w.shutdown();
+    for (thread, loc, msg) in crate::take_panics() {
+        r.violation(&format!("panic/{loc}"), &format!("thread {thread} panicked: {msg}"), case.clone(), json!({}));
+    }
+}
+
 pub fn run(a: &Args) -> Report {
     let mut r = Report::new("C09");
     if let Some(path) = &a.replay {
         let v: Value = serde_json::from_str(&std::fs::read_to_string(path).unwrap_or_default()).unwrap_or_default();
         let c = &v["case"];
         let s = |k: &str| c[k].as_str().unwrap_or("").to_string();
+        if c["class"].as_str() == Some("tid-hygiene") {
+            let seed = s("seed").parse().unwrap_or(1);
+            super::guarded(&mut r, c.clone(), |r| hygiene(r, seed));
+            return r;
+        }
         let case = Case {
             seed: s("seed").parse().unwrap_or(1),
             servers: c["servers"].as_u64().unwrap_or(2) as usize,
@@ -459,6 +643,11 @@ pub fn run(a: &Args) -> Report {
         }
         super::guarded(&mut r, case_json(c), |r| scenario(r, c));
         r.count("scenarios");
+    }
+    for _ in 0..(if a.quick() { 320 } else { 6400 }) / a.nshards.max(1) {
+        let seed = rng.u64();
+        super::guarded(&mut r, json!({"class":"tid-hygiene","seed":seed.to_string()}), |r| hygiene(r, seed));
+        r.count("hygiene_worlds");
     }
     r.notes.insert("injection_space".into(), json!(format!("{} cases = bases x 3 calls x (2 sources x 4 tids x 3 points x 5 payloads + 9 exact-address duplicate cases)", cases.len())));
     r
